@@ -170,6 +170,13 @@ func (s *stream) reopenStream(vbID uint16) {
 	retry := 5
 
 	for {
+		if s.observers == nil {
+			// the stream was closed meanwhile (rebalance or shutdown): the next Open
+			// requests this vBucket again if it is still assigned
+			logger.Log.Info("stream closed, give up re-open stream, vbID: %d", vbID)
+			return
+		}
+
 		err := s.openStream(vbID)
 		if err == nil {
 			logger.Log.Info("re-open stream, vbID: %d", vbID)
